@@ -277,10 +277,19 @@ pub fn main_c20(env: &Env, tier: &str, seed: u64, replay: Option<&str>) -> i32 {
             }
             // confirm by re-execution (group comparisons: re-run both members)
             if v.signature == "e1:rendering-depends-on-scan-timing" {
+                // the real scan of the process table sees the whole sandbox: the difference has to
+                // show in two more executions of both members before it is believed
                 let j = first_of_group[&cs[i].group];
-                let a = check_case_out(env, &ctx0, &cs[i]).1;
-                let b = check_case_out(env, &ctx0, &cs[j]).1;
-                if a == b {
+                let mut same = false;
+                for _ in 0..2 {
+                    let a = check_case_out(env, &ctx0, &cs[i]).1;
+                    let b = check_case_out(env, &ctx0, &cs[j]).1;
+                    if a == b {
+                        same = true;
+                        break;
+                    }
+                }
+                if same {
                     eprintln!("NOTE: violation did not reproduce, not reported: {}", v.message);
                     continue;
                 }
